@@ -174,6 +174,7 @@ package data
 //@ func (*nd{t}).Set(nd, loc, val)
 //@   safety C01
 //@   requires len(loc) <= len(nd.OffsetStep)
+//@   requires nd.Impl.id != nd.OffsetStep.id && nd.Impl.id != loc.id
 //@   requires 0 <= nd.Start + idot(loc, nd.OffsetStep, len(loc)) && nd.Start + idot(loc, nd.OffsetStep, len(loc)) < len(nd.Impl)
 //@   assigns nd.Impl[*]
 //@   ensures [C01.set-footprint] nd.Impl[nd.Start + idot(loc, nd.OffsetStep, len(loc))] == val && forall(p, 0, len(nd.Impl), implies(p != nd.Start + idot(loc, nd.OffsetStep, len(loc)), nd.Impl[p] == old(nd.Impl[p])))
@@ -194,6 +195,7 @@ package data
 
 //@ func (*nd{t}).Set1(nd, loc, val)
 //@   safety C01
+//@   requires nd.Impl.id != nd.OffsetStep.id
 //@   requires len(nd.OffsetStep) >= 1
 //@   requires 0 <= nd.Start + loc*nd.OffsetStep[0] && nd.Start + loc*nd.OffsetStep[0] < len(nd.Impl)
 //@   assigns nd.Impl[*]
@@ -208,6 +210,7 @@ package data
 
 //@ func (*nd{t}).Set2(nd, loc1, loc2, val)
 //@   safety C01
+//@   requires nd.Impl.id != nd.OffsetStep.id
 //@   requires len(nd.OffsetStep) >= 2
 //@   requires 0 <= nd.Start + loc1*nd.OffsetStep[0] + loc2*nd.OffsetStep[1] && nd.Start + loc1*nd.OffsetStep[0] + loc2*nd.OffsetStep[1] < len(nd.Impl)
 //@   assigns nd.Impl[*]
@@ -222,6 +225,7 @@ package data
 
 //@ func (*nd{t}).Set3(nd, loc1, loc2, loc3, val)
 //@   safety C01
+//@   requires nd.Impl.id != nd.OffsetStep.id
 //@   requires len(nd.OffsetStep) >= 3
 //@   requires 0 <= nd.Start + loc1*nd.OffsetStep[0] + loc2*nd.OffsetStep[1] + loc3*nd.OffsetStep[2] && nd.Start + loc1*nd.OffsetStep[0] + loc2*nd.OffsetStep[1] + loc3*nd.OffsetStep[2] < len(nd.Impl)
 //@   assigns nd.Impl[*]
@@ -233,3 +237,50 @@ package data
 //@   requires 0 <= nd.Start + loc1*nd.OffsetStep[0] + loc2*nd.OffsetStep[1] + loc3*nd.OffsetStep[2] && nd.Start + loc1*nd.OffsetStep[0] + loc2*nd.OffsetStep[1] + loc3*nd.OffsetStep[2] < len(nd.Impl)
 //@   assigns nothing
 //@   ensures [C01.get3-address] r == nd.Impl[nd.Start + loc1*nd.OffsetStep[0] + loc2*nd.OffsetStep[1] + loc3*nd.OffsetStep[2]]
+
+// ---- constructors establish a well-formed root view (origin 0, steps 1, row-major offsets) ----
+
+//@ func arrayFromSlice{t}(data, dims) returns (r)
+//@   safety C01
+//@   requires len(dims) >= 1
+//@   fresh r
+//@   assigns nothing
+//@   ensures [C01.root-header] r.Start == 0 && r.Impl == data && r.Dims == dims && r.OriginalDims == dims
+//@   ensures [C01.root-lens] len(r.Step) == len(dims) && len(r.Offset) == len(dims) && len(r.OffsetStep) == len(dims)
+//@   ensures [C01.root-steps] forall(k, 0, len(dims), r.Step[k] == 1 && r.OffsetStep[k] == r.Offset[k])
+//@   ensures [C01.root-offsets] r.Offset[len(dims)-1] == 1 && forall(k, 0, len(dims)-1, r.Offset[k] == r.Offset[k+1]*dims[k+1])
+//@   ensures [C01.root-no-alias] r.OffsetStep.id != data.id && r.Offset.id != data.id && r.Step.id != data.id
+
+//@ func newArray{t}(dims) returns (r)
+//@   safety C01
+//@   requires len(dims) >= 1 && iprod(dims, len(dims)) >= 0
+//@   fresh r
+//@   assigns nothing
+//@   ensures [C01.new-zeroed] r.Start == 0 && r.Dims == dims && r.OriginalDims == dims && len(r.Impl) == iprod(dims, len(dims)) && forall(p, 0, len(r.Impl), r.Impl[p] == 0)
+//@   ensures [C01.new-steps] len(r.OffsetStep) == len(dims) && len(r.Offset) == len(dims) && len(r.Step) == len(dims) && forall(k, 0, len(dims), r.Step[k] == 1 && r.OffsetStep[k] == r.Offset[k])
+//@   ensures [C01.new-offsets] r.Offset[len(dims)-1] == 1 && forall(k, 0, len(dims)-1, r.Offset[k] == r.Offset[k+1]*dims[k+1])
+//@   ensures [C01.new-no-alias] r.OffsetStep.id != r.Impl.id && r.Impl.id != dims.id
+
+//@ func NewArray1D{T}(dim) returns (r)
+//@   safety C01
+//@   requires dim >= 0
+//@   fresh r
+//@   assigns nothing
+//@   ensures [C01.new1d] as(r, nd{t}).Start == 0 && len(as(r, nd{t}).Dims) == 1 && as(r, nd{t}).Dims[0] == dim && len(as(r, nd{t}).OffsetStep) == 1 && as(r, nd{t}).OffsetStep[0] == 1 && len(as(r, nd{t}).Impl) == dim && forall(p, 0, dim, as(r, nd{t}).Impl[p] == 0)
+
+// ---- Contiguous (C02): characterisation for all ranks ----
+// pf(k) = product of Dims[k..n), ae(k) = Dims and OriginalDims agree on [k, n)
+// P: for every axis i with Dims[i] > 1: all later axes are full (ae(i+1)),
+//    Step[i] <= 1 and Offset[i] <= pf(i+1)
+
+//@ spec pfrom(d []int, k int, n int) int = ite(k >= n, 1, d[k] * pfrom(d, k+1, n))
+//@ spec agree(d []int, o []int, k int, n int) bool = ite(k >= n, true, d[k] == o[k] && agree(d, o, k+1, n))
+
+//@ func (*Nd{T}Common).Contiguous(nd) returns (r)
+//@   safety C02
+//@   requires len(nd.OriginalDims) >= len(nd.Dims) && len(nd.Step) >= len(nd.Dims) && len(nd.Offset) >= len(nd.Dims)
+//@   assigns nothing
+//@   ensures [C02.contiguous-char] iff(r, forall(k, 0, len(nd.Dims), implies(nd.Dims[k] > 1, agree(nd.Dims, nd.OriginalDims, k+1, len(nd.Dims)) && nd.Step[k] <= 1 && nd.Offset[k] <= pfrom(nd.Dims, k+1, len(nd.Dims)))))
+//@   loop 0 invariant -1 <= i && i < len(nd.Dims)
+//@   loop 0 invariant contiguousOffset == pfrom(nd.Dims, i+1, len(nd.Dims)) && iff(dimsMustBeOne, !agree(nd.Dims, nd.OriginalDims, i+1, len(nd.Dims)))
+//@   loop 0 invariant forall(k, i+1, len(nd.Dims), implies(nd.Dims[k] > 1, agree(nd.Dims, nd.OriginalDims, k+1, len(nd.Dims)) && nd.Step[k] <= 1 && nd.Offset[k] <= pfrom(nd.Dims, k+1, len(nd.Dims))))
